@@ -35,7 +35,7 @@ type ShardResult struct {
 	Violations  []Violation    `json:"violations"`
 	Slow        []int          `json:"slow,omitempty"`
 	Done        bool           `json:"done"`
-	Next        int            `json:"next,omitempty"` // the shard stopped on purpose (fresh process per batch); resume here
+	Next        int            `json:"next,omitempty"`  // the shard stopped on purpose (fresh process per batch); resume here
 	Abort       string         `json:"abort,omitempty"` // "cpu" or "heap": watchdog fired in AbortCase
 	AbortCase   int            `json:"abort_case,omitempty"`
 	AbortSig    string         `json:"abort_sig,omitempty"` // signature the running case declared for a hang
@@ -85,7 +85,7 @@ func (c *C) Distinct(h uint64) {
 }
 
 func (c *C) DistinctBytes(b []byte) { c.Distinct(Hash64(b)) }
-func (c *C) DistinctStr(s string)  { c.Distinct(Hash64([]byte(s))) }
+func (c *C) DistinctStr(s string)   { c.Distinct(Hash64([]byte(s))) }
 
 // SetHangSig declares the signature a watchdog abort during the current case must carry
 // (so that a hang with a known cause is distinguishable from any other hang).
@@ -182,7 +182,7 @@ type Prop struct {
 
 var registry = map[string]*Prop{}
 
-func Register(p *Prop) { registry[p.ID] = p }
+func Register(p *Prop)    { registry[p.ID] = p }
 func Get(id string) *Prop { return registry[id] }
 func IDs() []string {
 	ids := []string{}
